@@ -439,4 +439,118 @@ theorem parseTextProto_canon (hF : FrontSyms S) (hT : textSymsOk S = true) (gene
   simp [lookupKey, kwNetqasm, kwAppid, kwDefine, applyMacros_nil _ hnl, parseBody_render hF generic P hP,
     parseVersion_canon, pyInt_showInt, Except.map]
 
+/-! ### blank and comment-only lines anywhere -/
+
+/-- `ls'` is `ls` with lines interleaved that `_split_preamble_body` ignores (blank lines,
+comment-only lines: whatever `cleanLine` empties) -/
+inductive Padded (cmt : List Char) : List (List Char) → List (List Char) → Prop
+  | nil : Padded cmt [] []
+  | keep {x : List Char} {a b : List (List Char)} : Padded cmt a b → Padded cmt (x :: a) (x :: b)
+  | pad {x : List Char} {a b : List (List Char)} : cleanLine cmt x = [] → Padded cmt a b → Padded cmt a (x :: b)
+
+theorem splitLoop_padded {pre : Char} {cmt : List Char} {ls ls' : List (List Char)} (h : Padded cmt ls ls') :
+    ∀ st, splitLoop pre cmt ls' st = splitLoop pre cmt ls st := by
+  induction h with
+  | nil => intro st; rfl
+  | @keep x a b _ ih =>
+    intro st
+    simp only [splitLoop]
+    cases splitStep pre cmt st x with
+    | error e => rfl
+    | ok st' => exact ih st'
+  | @pad x a b hx _ ih =>
+    intro st
+    simp only [splitLoop, splitStep, hx, List.isEmpty_nil, if_true]
+    exact ih st
+
+/-- a line of blanks is ignored -/
+theorem cleanLine_blank (cmt : List Char) (x : List Char) (h : ∀ c ∈ x, AsmText.isSpace c = true) :
+    cleanLine cmt x = [] := by
+  have : x.dropWhile AsmText.isSpace = [] := by
+    induction x with
+    | nil => rfl
+    | cons c cs ih => simp [List.dropWhile_cons, h c (by simp), ih (fun d hd => h d (by simp [hd]))]
+  simp [cleanLine, AsmText.strip, this, takeBefore]
+
+/-- a line that starts with the comment marker is ignored -/
+theorem cleanLine_comment (cmt rest : List Char) (hc : ∃ c cs, cmt = c :: cs ∧ AsmText.isSpace c = false)
+    (hr : ∃ l d, cmt ++ rest = l ++ [d] ∧ AsmText.isSpace d = false) : cleanLine cmt (cmt ++ rest) = [] := by
+  obtain ⟨c, cs, hcm, hcs⟩ := hc
+  obtain ⟨l, d, hl, hd⟩ := hr
+  have hs : AsmText.strip (cmt ++ rest) = cmt ++ rest :=
+    asm_strip_of_ends hcs hd ⟨cs ++ rest, by rw [hcm]; rfl⟩ ⟨l, hl⟩
+  simp only [cleanLine, hs]
+  rw [hcm]
+  have hp : (c :: cs).isPrefixOf (c :: (cs ++ rest)) = true :=
+    List.isPrefixOf_iff_prefix.2 ⟨rest, by simp⟩
+  simp only [List.cons_append, takeBefore, hp, if_true]
+
+/-- **`parse_render_program`** with blank / comment-only lines interleaved anywhere -/
+theorem parseTextProto_padded (hF : FrontSyms S) (hT : textSymsOk S = true) (generic : List String) (v w n : Nat)
+    (P : List Asm.PCmd) (hP : ∀ c ∈ P, CmdOk S generic c) (ls' : List (List Char))
+    (hpad : Padded S.comment.toList (canonLines S v w n P) ls') (hnl : ∀ l ∈ ls', '\n' ∉ l) :
+    parseTextProto S generic (joinWith '\n' ls') = .ok ⟨some ((v : Int), (w : Int)), some (n : Int), P⟩ := by
+  have hne : ls' ≠ [] := by
+    intro e; subst e
+    cases hpad
+  have h0 := parseTextProto_canon hF hT generic v w n P hP
+  have hsplit : splitPreambleBody S.preambleStart S.comment.toList (joinWith '\n' ls') =
+      splitPreambleBody S.preambleStart S.comment.toList (canonText S v w n P) := by
+    have hcanon : Text.splitOn '\n' (canonText S v w n P) = canonLines S v w n P := by
+      -- read off from the proof of `split_canon`: the canonical lines contain no newline
+      have := split_canon hF hT generic v w n P hP
+      unfold canonText
+      apply splitOn_joinWith '\n' _ (by simp [canonLines])
+      intro L hL hin
+      have hT' := hT
+      simp only [textSymsOk, Bool.and_eq_true, Bool.not_eq_true'] at hT'
+      have hnlc := hT'.1.1.1.1.1.1
+      have c1 := content_facts (S := S) kwNetqasm (by decide) (by decide) (verStr v w) (verStr_facts (S := S) v w).1 (verStr_facts (S := S) v w).2
+      have c2 := content_facts (S := S) kwAppid (by decide) (by decide) (showInt (n : Int)) (appid_facts (S := S) n).1 (appid_facts (S := S) n).2
+      have hok : okLineChar S '\n' = true := by
+        simp only [canonLines, List.cons_append, List.nil_append, List.mem_cons] at hL
+        rcases hL with rfl | rfl | hL
+        · simp only [preLine, List.mem_cons] at hin
+          rcases hin with e | e | hin
+          · rw [e]; simp [okLineChar]
+          · cases e
+          · exact c1.2 _ hin
+        · simp only [preLine, List.mem_cons] at hin
+          rcases hin with e | e | hin
+          · rw [e]; simp [okLineChar]
+          · cases e
+          · exact c2.2 _ hin
+        · obtain ⟨c, hc, rfl⟩ := List.mem_map.1 hL
+          exact renderCmd_chars hF generic c (hP c hc) _ hin
+      rw [hnlc] at hok; cases hok
+    unfold splitPreambleBody
+    rw [splitOn_joinWith '\n' ls' hne hnl, hcanon, splitLoop_padded hpad]
+  unfold parseTextProto at h0 ⊢
+  rw [hsplit]
+  exact h0
+
+/-! ### macros: the body level -/
+
+/-- **`parse_render_with_macros`, body level.**  If the sequential substitution of `_apply_macros` is
+the token-wise one on these body lines (`C03.macros_tokenwise` gives the hypotheses under which it
+is) and the token-wise reading of the body is the rendering of `P`, then `_create_subroutine` reads
+`P` from the substituted body. -/
+theorem parseBody_macros (hF : FrontSyms S) (hT : textSymsOk S = true) (generic : List String)
+    (P : List Asm.PCmd) (hP : ∀ c ∈ P, CmdOk S generic c) (hne : P ≠ [])
+    (B : List (List Char)) (hB : B ≠ []) (macros : List (List Char × List Char))
+    (hseq : substAll reSub macros (joinWith '\n' B) = substTokenwise macros (joinWith '\n' B))
+    (htok : substTokenwise macros (joinWith '\n' B) = joinWith '\n' (P.map (renderCmd S))) :
+    parseBody S generic (applyMacros B macros) = .ok P := by
+  have hnl : ∀ l ∈ P.map (renderCmd S), '\n' ∉ l := by
+    intro l hl hin
+    obtain ⟨c, hc, rfl⟩ := List.mem_map.1 hl
+    have := renderCmd_chars hF generic c (hP c hc) _ hin
+    have hT' := hT
+    simp only [textSymsOk, Bool.and_eq_true, Bool.not_eq_true'] at hT'
+    rw [hT'.1.1.1.1.1.1] at this; cases this
+  have hBe : B.isEmpty = false := by cases B with | nil => exact absurd rfl hB | cons _ _ => rfl
+  simp only [applyMacros, hBe, Bool.false_eq_true, if_false, hseq, htok, asm_splitOn_eq]
+  rw [splitOn_joinWith '\n' _ (by simpa using hne) hnl]
+  exact parseBody_render hF generic P hP
+
 end NQ.AsmFront
